@@ -390,37 +390,25 @@ def selectPath (paths : List KV) (hint : Int) : Option KV :=
 def objLabels (p : KV) : KV :=
   p.foldl (fun acc kv => if hasPrefix kObj_ kv.1 then setKV (kv.1.drop 4) kv.2 acc else acc) []
 
-/-- `setFileObject` after the PATH record has been chosen. -/
+/-- `setFileObject` after the PATH record has been chosen.  (`if v, found := path[k]; found
+{ f.X = v }` on the fresh `File` is `f.X = path[k]`.) -/
 def fileFromPath (e : Event) (p : KV) : Event :=
-  let f0 : File := {}
   let e1 := match lookup kName p with
     | some v => { e with objPrimary := v }
     | none => e
-  let f1 := match lookup kName p with
-    | some v => { f0 with path := v }
-    | none => f0
-  let f2 := match lookup kInode p with
-    | some v => { f1 with inode := v }
-    | none => f1
-  let f3 := match lookup kRdev p with
-    | some v => { f2 with device := v }
-    | none => f2
-  let rest := fun (e : Event) (f : File) =>
-    let f5 := match lookup kOuid p with
-      | some v => { f with uid := v }
-      | none => f
-    let f6 := match lookup kOgid p with
-      | some v => { f5 with gid := v }
-      | none => f5
-    { e with file := some { f6 with selinux := objLabels p } }
+  let f3 : File := { path := getD kName p, inode := getD kInode p, device := getD kRdev p }
   match lookup kMode p with
-  | none => rest e1 f3
+  | none =>
+    { e1 with file := some { f3 with uid := getD kOuid p, gid := getD kOgid p, selinux := objLabels p } }
   | some mv =>
     match parseUint 8 64 mv with
     | none => warn { e1 with file := some f3 } .fileObj
     | some n =>
       let m := n % 4294967296
-      rest { e1 with objType := classifyMode m e1.objType } { f3 with mode := oct4 (m % 4096) }
+      { e1 with
+        objType := classifyMode m e1.objType
+        file := some { f3 with mode := oct4 (m % 4096), uid := getD kOuid p, gid := getD kOgid p,
+                               selinux := objLabels p } }
 
 def setSocketObject (e : Event) : Event :=
   let e1 := match lookup (b! "socket_addr") e.data with
